@@ -116,6 +116,9 @@ type c07Tracer struct {
 	opSeen OpCode
 	gasAt  uint64
 	costAt uint64
+	// cancelAt == 3: let one more instruction be fetched so that its pc can be observed
+	cancelAt int
+	pc3      uint64
 }
 
 func (t *c07Tracer) CaptureStart(from common.Address, to common.Address, call bool, input []byte, gas uint64, value *big.Int) error {
@@ -129,6 +132,11 @@ func (t *c07Tracer) CaptureState(env *EVM, pc uint64, op OpCode, gas, cost uint6
 		t.inject(memory, stack, contract)
 	case 2:
 		t.opSeen, t.gasAt, t.costAt = op, gas, cost
+		if t.cancelAt <= 2 {
+			env.Cancel()
+		}
+	case 3:
+		t.pc3 = pc
 		env.Cancel()
 	}
 	return nil
